@@ -49,6 +49,10 @@ pub fn leak(s: String) -> &'static str {
 /// every call delivered to a ScriptIface: (interface name, request as JSON)
 pub static CALLS: Mutex<Vec<(String, Value)>> = Mutex::new(Vec::new());
 
+/// when set, the scripted upgraded handler returns to the server after every buffer it has echoed instead of looping
+/// until end of input, so that the server re-enters handle() between protocol units
+pub static UPGRADED_UNIT: AtomicBool = AtomicBool::new(false);
+
 pub struct ScriptIface {
     pub name: &'static str,
     pub descr: &'static str,
@@ -80,6 +84,9 @@ impl varlink::Interface for ScriptIface {
                 buf.len()
             };
             bufreader.consume(n);
+            if UPGRADED_UNIT.load(Ordering::SeqCst) {
+                break;
+            }
         }
         Ok(Vec::new())
     }
